@@ -70,7 +70,7 @@ def run(spec, rec):
         mask = rng.random(shape) < rng.choice([0, 0.2, 0.5])
         folded = bool(rng.random() < 0.3) and vk in ("moderate", "integers") and all(s > 1 for s in shape)
         labels = bool(rng.random() < 0.6)
-        ids = [str(rng.choice(["pop %d", "Pop_%d", "a b c %d", "YRI %d", "folded %d x", "two  spaces %d", "tab\there %d", " lead %d", "trail %d ", "x   y    %d"])) % i for i in range(ndim)] if labels else None
+        ids = [str(rng.choice(["pop %d", "Pop_%d", "a b c %d", "YRI %d", "folded %d x", "YRI folded %d later", "un folded %d", "two  spaces %d", "tab\there %d", " lead %d", "trail %d ", "x   y    %d"])) % i for i in range(ndim)] if labels else None
         corners = bool(rng.integers(2))
         # the memory layout of the array behind a spectrum is not part of what is stored: Fortran-ordered input, and spectra
         # that are strided views (what reorder_pops / transpose / swapaxes return), must write the same file
